@@ -491,6 +491,15 @@ def run(ck):
     ck.rule("C32.valid-ip", "is_valid_ip: empty and NUL-containing text rejected before a numeric-only getaddrinfo; errors and guards answer False")
     ck.rule("C32.socket-address", "the context's initial remote_ip is address[0] for AF_INET and AF_INET6 sockets (the value restored after each request and used when no proxy header applies)")
     ck.rule("C32.precedence", "validated candidate = headers.get('X-Real-Ip', XFF candidate); XFF candidate = right-to-left scan of the stripped list stopping at the first entry not in trusted_downstream, default the socket address")
+    # function splitting: single-use private helpers of the governed modules are inlined first (vt.x_wsnorm),
+    # so that the rules see `_apply_xheaders` etc. with their helpers' statements in place
+    from .. import x_wsnorm
+
+    for rel, keep in ((HS, {"_apply_xheaders", "_unapply_xheaders", "_cleanup"}), (NU, {"is_valid_ip"})):
+        try:
+            ck.repo = x_wsnorm.normalize(ck.repo, rel, keep=keep)
+        except (SyntaxError, RecursionError, ValueError) as e:
+            raise AnalysisError("normalisation of %s failed: %s" % (rel, e))
     fields = rule_validated(ck)
     rule_restore(ck, fields)
     rule_adapter(ck)
